@@ -370,6 +370,47 @@ fn dfs(m: &Model, prefix: &mut Vec<Op>, depth: usize, count: &mut u64, rep: &Rep
 }
 
 // ------------------------------------------------------------------------------------------
+// the same op sequences inside a tokio task that has used up its cooperative-scheduling budget
+// (any tokio resource polled there reports "not ready"; what a slot does must not depend on it)
+
+fn busy_task_histories(rng: &mut Rng, n: usize, rep: &Report) -> bool {
+    let rt = tokio::runtime::Builder::new_current_thread().build().expect("runtime");
+    let mut seqs: Vec<Vec<Op>> = vec![];
+    for _ in 0..n {
+        let mut m = Model::new();
+        let mut ops = vec![];
+        for _ in 0..3 + rng.usize_below(7) {
+            if m.done() {
+                break;
+            }
+            // wait_for_data is left out here: awaiting inside a task without budget means yielding to
+            // the runtime, which this synchronous driver cannot do
+            let en: Vec<Op> = m.enabled().into_iter().filter(|o| !matches!(o, Op::WaitForData)).collect();
+            let op = *rng.pick(&en);
+            m.apply(op);
+            ops.push(op);
+        }
+        seqs.push(ops);
+    }
+    rt.block_on(async {
+        for ops in seqs {
+            // a fresh budget is 128 units; use all of them without yielding
+            for _ in 0..128 {
+                tokio::task::coop::consume_budget().await;
+            }
+            let exhausted = !tokio::task::coop::has_budget_remaining();
+            rep.eval();
+            if !run_sequential(&ops, rep) {
+                return false;
+            }
+            rep.count(if exhausted { "busy_task_sequences_with_exhausted_budget" } else { "busy_task_sequences_budget_not_exhausted" }, 1);
+            tokio::task::yield_now().await;
+        }
+        true
+    })
+}
+
+// ------------------------------------------------------------------------------------------
 // concurrent: parent and guard(s) dropped on different threads
 
 fn concurrent_history(rng: &mut Rng, rep: &Report) -> Option<u64> {
@@ -549,7 +590,7 @@ fn main() {
         "(a) EVERY single-thread op sequence up to length L over a parent with a Slot and a LazySlot: open(wait|discard) (also a second open), mutate through the guard, \
          drop guard, wait_for_data, mutate/drop parent, create/drop a force-flush guard; after every op the number of appended entries and the content (parent fields, slot values as \
          last mutated, absent when the guard was still alive) must equal the reference. (b) parent, slot guards and a force-flush guard dropped on separate threads released by a barrier, \
-         perturbed at the hook between the guard's send and the release of its flush guard; assertions hold in every linearization. distinct = distinct op sequences / outcome classes",
+         perturbed at the hook between the guard's send and the release of its flush guard; assertions hold in every linearization. (c) random op sequences run inside a tokio task whose cooperative budget is used up. distinct = distinct op sequences / outcome classes",
     );
     let depth = args.get_u64("depth", args.by_tier(6, 7)) as usize;
     // parallel DFS over the first two levels
@@ -603,6 +644,9 @@ fn main() {
                         if let Some(sig) = concurrent_history(&mut rng, rep) {
                             rep.distinct(sig);
                             rep.count("concurrent_histories", 1);
+                        }
+                        if rng.below(64) == 0 && !busy_task_histories(&mut rng, 20, rep) {
+                            return;
                         }
                     }
                 });
